@@ -248,7 +248,7 @@ func (e *c04Env) pushItem(a *c04Asm, n *c04Node) {
 	case c04Del, c04NotifyVal:
 		a.pushBytes(c04Key(n.K))
 		cnt = 2
-	case c04Notify, c04SetFee:
+	case c04Notify, c04SetFee, c04Abort:
 		a.pushInt(int64(n.V))
 		cnt = 2
 	case c04Move:
@@ -279,6 +279,19 @@ func (e *c04Env) pushItem(a *c04Asm, n *c04Node) {
 	a.pushInt(int64(n.tag()))
 	a.pushInt(int64(cnt))
 	a.op(opcode.PACK)
+}
+
+// abort flavours: all are the same uncatchable fault for the model
+func c04AbortCode(a *c04Asm, v int) {
+	switch v {
+	case 1:
+		a.op(opcode.PUSHF, opcode.ASSERT)
+	case 2:
+		a.pushStr("m")
+		a.op(opcode.ABORTMSG)
+	default:
+		a.op(opcode.ABORT)
+	}
 }
 
 // ---- entry script: straight-line compilation of the entry-level tree ----
@@ -316,7 +329,7 @@ func (e *c04Env) compileEntry(a *c04Asm, n *c04Node) {
 		a.pushStr("x")
 		a.op(opcode.THROW)
 	case c04Abort:
-		a.op(opcode.ABORT)
+		c04AbortCode(a, n.V)
 	case c04Call:
 		e.pushItem(a, n.Body)
 		a.pushInt(1)
@@ -545,8 +558,19 @@ func c04Interpreter(gas, policy util.Uint160) (script []byte, runOff, payOff int
 	a.pushStr("x")
 	a.op(opcode.THROW)
 
-	a.label("op_abort")
+	a.label("op_abort") // p[1]: 0 ABORT, 1 ASSERT false, 2 ABORTMSG
+	a.op(opcode.DROP)
+	item(1)
+	a.op(opcode.DUP, opcode.PUSH1, opcode.NUMEQUAL)
+	a.jmp(opcode.JMPIFL, "abort_assert")
+	a.op(opcode.PUSH2, opcode.NUMEQUAL)
+	a.jmp(opcode.JMPIFL, "abort_msg")
 	a.op(opcode.ABORT)
+	a.label("abort_assert")
+	a.op(opcode.PUSHF, opcode.ASSERT)
+	a.label("abort_msg")
+	a.pushStr("m")
+	a.op(opcode.ABORTMSG)
 
 	// onNEP17Payment(from, amount, data)
 	payOff = len(a.buf)
